@@ -131,6 +131,10 @@ pub struct Instant { p: core::marker::PhantomData<u8> }
         // C19: a write that failed part-way must not leave a remembered state that claims
         // the directory is up to date; the next compile has to start from scratch
         old(state).db.gen_result() is Ok && r is Err ==> final(state).file_system_state is None, //@O C19.O-1m_failed_write_forgets_directory_state
+        // C17 (contrapositive): once the operations were applied successfully the compile does
+        // not report an error any more — an Err is due to generation or to the write itself
+        old(state).db.gen_result() is Ok && r is Err ==>
+            exists|ops: Seq<FileSystemOperation>| (#[trigger] apply_result(ops, old(state).db.gen_result()->Ok_0.0)) is Err, //@O C17.O-3m_error_reported_only_if_generation_or_write_failed
         final(state).db == old(state).db,
 //@end
 
